@@ -13,7 +13,7 @@ RULE = ('60 (1200) function-level cases: fitting_routines.linear_regression / op
         'extinction tables of 2-50 rows (filters sometimes outside the table), A_V ranges interior / clamping low / clamping high / lo==hi / narrow. '
         'non-trivial = non-singular regression (condition number < 1e8) with at least one model; distinct = distinct inputs.')
 EXHAUSTIVE = {'quick': False, 'thorough': False}
-ASSUMPTIONS = ['float rounding of the implementation: compared with relative tolerance 1e-10 x condition number of the 2x2 regression',
+ASSUMPTIONS = ['float rounding of the implementation: compared with relative tolerance 1e-10 x condition number of the 2x2 regression (the condition number is taken as at least 1e-2 x the ratio of the extreme weights)',
                'regressions whose normal equations have a condition number between 1e8 and 1e15 (very unequal weights) are judged on the objective only: S at the reported (A_V, scale) within (1e-6 + 1e-16 x condition) x (1 + S_min) of the exact minimum; beyond 1e15 they are skipped',
                'singular regressions (all extinction coefficients of the fitted bands equal) are outside the quantifier and skipped (counted)',
                'limit bands whose predicted flux is within 1e-9 of the limit are not compared on chi2 (near-tie filter)']
@@ -167,6 +167,11 @@ def judge(case, im, mo):
     if isinstance(m, tuple):
         return dict(disagree=['driver %r' % (m,)], fail=[], nontrivial=False)
     bands, ks, cond = conditioning(case)
+    # very unequal weights (one band measured to 1e-7, the others to tens of per cent) cost the regression digits as well, whatever the
+    # collinearity of the two patterns: the ratio of the extreme weights takes part in the conditioning
+    ws = [float(w) for (f, lf, le, w) in bands if w > 0]
+    wr = max(ws) / min(ws) if ws else 1.0
+    cond = max(cond, wr * 1e-2)
     if cond > 1e8:
         # the parameters are weakly determined along one direction, but the minimum of S is not: the reported (A_V, scale) must still
         # reach it (very unequal weights make the normal equations of a well-posed fit ill-conditioned)
